@@ -329,35 +329,43 @@ Definition enumerate_indices (I : int_impl) (start : Z) (n : nat) : res (list Z)
 
 (* ---------- slicing: eval.go slice() index normalisation, then rangeValue.Slice *)
 
-(* asIndex: None/absent keeps the default; otherwise AsInt32, negative + len *)
-Definition asIndex (v : option Z) (len dflt : Z) : res Z :=
+(* func asIndex(v Value, len int, result *int): None/absent keeps the default; an int
+   that fits in a Go int is used (negative + len); a larger one is truncated to
+   the nearest bound: -1 if negative, len otherwise *)
+Definition asIndex (v : option Z) (len dflt : Z) : Z :=
   match v with
-  | None => Ok dflt
-  | Some z => if negb (in_int32 z) then Err else Ok (if z <? 0 then wrap64 (z + len) else z)
+  | None => dflt
+  | Some z => if in_int64 z then (if z <? 0 then wrap64 (z + len) else z)
+              else if z <? 0 then -1 else len
   end.
 
 Definition clamp (x lo hi : Z) : Z := if x <? lo then lo else if hi <? x then hi else x.
 
+(* the step of slice(): used as is when it fits in 32 bits or is smaller in magnitude than n;
+   otherwise replaced by +-max(n, 1), which selects the same (at most one) element *)
+Definition slice_step (n : Z) (st : option Z) : res Z :=
+  match st with
+  | None => Ok 1
+  | Some x =>
+      let step :=
+        if in_int64 x && (in_int32 x || ((wrap64 (- n) <? x) && (x <? n))) then x
+        else if x <? 0 then wrap64 (- (Z.max n 1)) else Z.max n 1 in
+      if step =? 0 then Err else Ok step
+  end.
+
 (* returns (start, end, step) passed to Sliceable.Slice *)
 Definition slice_indices (n : Z) (lo hi st : option Z) : res (Z * Z * Z) :=
-  match (match st with None => Ok 1 | Some s => if negb (in_int32 s) then Err else if s =? 0 then Err else Ok s end) with
+  match slice_step n st with
   | Err => Err
   | Ok step =>
       if 0 <? step then
-        match asIndex lo n 0, asIndex hi n n with
-        | Ok s0, Ok e0 =>
-            let s := clamp s0 0 n in let e := clamp e0 0 n in
-            Ok (s, (if e <? s then s else e), step)
-        | _, _ => Err
-        end
+        let s := clamp (asIndex lo n 0) 0 n in let e := clamp (asIndex hi n n) 0 n in
+        Ok (s, (if e <? s then s else e), step)
       else
-        match asIndex lo n (wrap64 (n - 1)), asIndex hi n (-1) with
-        | Ok s0, Ok e0 =>
-            let s := if n <=? s0 then wrap64 (n - 1) else s0 in
-            let e := if e0 <? -1 then -1 else e0 in
-            Ok ((if s <? e then e else s), e, step)
-        | _, _ => Err
-        end
+        let s0 := asIndex lo n (wrap64 (n - 1)) in let e0 := asIndex hi n (-1) in
+        let s := if n <=? s0 then wrap64 (n - 1) else s0 in
+        let e := if e0 <? -1 then -1 else e0 in
+        Ok ((if s <? e then e else s), e, step)
   end.
 
 (* func (r rangeValue) Slice(start, end, step int) Value   (None = panic in rangeLen) *)
@@ -625,7 +633,7 @@ Definition print_prefixed (base z : Z) : list Z :=
 
 (* =====================================================================
    repetition guards (eval.go tupleRepeat / stringRepeat): the length of x * n
-     if len == 0 -> empty; i, err := AsInt32(n) (error: "repeat count too large");
+     if len == 0 -> empty; i, err := AsInt32(n) (error: "repeat count too large", unless n < 0 -> empty);
      if i < 1 -> empty; of, sz := bits.Mul(uint(len), uint(i));
      if of != 0 || sz >= maxAlloc -> error; else sz elements
    ===================================================================== *)
@@ -634,7 +642,7 @@ Definition maxAlloc : Z := 1073741824.
 Definition repeat_len (I : int_impl) (len : Z) (n : T I) : res Z :=
   if len =? 0 then Ok 0
   else match AsInt32 I n with
-       | None => Err
+       | None => if Sign I n <? 0 then Ok 0 else Err     (* negative counts behave like zero *)
        | Some i =>
            if i <? 1 then Ok 0
            else let p := wrapu64 len * wrapu64 i in
